@@ -27,8 +27,8 @@ Inductive outcome := Cont | Ret (r : lbool).           (* of the part of a searc
 Inductive elim_out := EMore | EDone | EConflict.       (* of the work between two polls of eliminate() *)
 
 Inductive pc :=
-| PElimHead      (* eliminate(): `if (not okContinue())` at the head of the simplification loops   POLL *)
-| PElimWork      (* subsumption / variable elimination up to the next poll *)
+| PElimHead      (* eliminate(): `if (not okContinue())` inside the simplification loops              POLL *)
+| PElimWork      (* subsumption / variable elimination up to the next poll site (EMore) or the end *)
 | PElimCleanup   (* label cleanup: *)
 | PSolveHead     (* solve_(): while (status == l_Undef && okContinue())                               POLL *)
 | PSearchInit    (* search(): level-0 checkTheory before the loop *)
@@ -104,7 +104,8 @@ Section Skeleton.
 
   Definition result (c : cfg) : option lbool := match c_pc c with PDone r => Some r | _ => None end.
 
-  Definition entry (do_simp : bool) (s : S) : cfg := mkCfg (if do_simp then PElimHead else PSolveHead) s 0 0.
+  (* eliminate() starts with work; its loops may end before any poll is reached *)
+  Definition entry (do_simp : bool) (s : S) : cfg := mkCfg (if do_simp then PElimWork else PSolveHead) s 0 0.
 
   (* what the exact-prediction theorem says the implementation returns when the stop becomes
      visible at poll n, given the no-stop run (N polls, answer r0) *)
